@@ -11,7 +11,7 @@ ASSUMPTIONS = ['breakpoints strictly increasing (b_0 < ... < b_N), all values fi
                'hint values are concrete ints from the classes {INT_MIN,-2,-1,0..N-1,N,N+1,N+2,INT_MAX}; segment counts, coefficient counts and derivative orders are concrete and enumerated',
                '"one ulp either side of a breakpoint" is covered in the Real order by the open/closed boundary paths, not at the bit level',
                'UF (bit-identity) claims are about Eigen scalar paths']
-FUNCTIONS = ['PPolyND<DIM,ORDER>::evaluate(t,k)', 'evaluate(t,&hint,k)', 'evaluate(vector,k)', 'Deriv-enum overloads', 'operator[] / at / begin..end -> Segment::evaluate',
+FUNCTIONS = ['PPolyND::ConstIterator (all operators)', 'PPolyND<DIM,ORDER>::evaluate(t,k)', 'evaluate(t,&hint,k)', 'evaluate(vector,k)', 'Deriv-enum overloads', 'operator[] / at / begin..end -> Segment::evaluate',
              'derivative(k)', 'findSegment (linear, binary, hinted)', 'buildDerivativeCoefficients', 'derivativeFactor (static + dynamic tables)', 'evaluateSegmentHorner']
 OUTSIDE = ['NaN/inf t', 'hint values other than the enumerated classes (the three integer comparisons in findSegment(t,hint) distinguish exactly these classes - read from the code, not solver-proved)',
            'segment counts other than those listed']
@@ -66,7 +66,39 @@ def tasks(tier, seed):
             T.append({'name': 'eval %s N%d nc%d k%d' % (ty, N, nc, k), 'ty': ty, 'N': N, 'nc': nc, 'k': k, 'seed': seed, 'timeout': to})
         if N <= 3:
             T.append({'name': 'hintseq %s N%d nc%d' % (ty, N, nc), 'fn': 'run_seq', 'ty': ty, 'N': N, 'nc': nc, 'len': 2 if tier == 'quick' else 3, 'seed': seed, 'timeout': to})
+    for ty in ('2dyn', '3f6'):
+        for N in (1, 3, 33):
+            T.append({'name': 'iterators %s N%d' % (ty, N), 'fn': 'run_iter', 'ty': ty, 'N': N, 'seed': seed, 'timeout': to})
     return T
+
+
+@C.run_scenarios
+def run_iter(t):
+    """every operator of the segment iterator (difference, comparison, pre/post increment and decrement, arrow, + n)"""
+    ty, N = t['ty'], t['N']
+    nc = 4
+    s, b, c, dim, rng = base_script(ty, N, nc, t['seed'])
+    s.add('pp.iterops P IT')
+    tu = build.ppoly_tu(*TYPES[ty])
+    sc = O.Scenario(ID, t['name'], tu, s, timeout=t['timeout'])
+    Ns = range(N + 1) if N <= 3 else (0, 1, 16, N - 1, N)
+    for i in Ns:
+        for j in Ns:
+            sc.int_eq('(begin+%d) - (begin+%d)' % (i, j), 'IT.diff.%d.%d' % (i, j), i - j)
+            sc.int_eq('(begin+%d) == (begin+%d)' % (i, j), 'IT.eq.%d.%d' % (i, j), int(i == j))
+            sc.int_eq('(begin+%d) != (begin+%d)' % (i, j), 'IT.ne.%d.%d' % (i, j), int(i != j))
+    for i in (range(N) if N <= 3 else (0, 1, N - 1)):
+        sc.int_eq('it++ returns the old position %d' % i, 'IT.postinc.old.%d' % i, i)
+        sc.int_eq('it++ advances to %d' % (i + 1), 'IT.postinc.new.%d' % i, i + 1)
+        sc.int_eq('it-- returns the old position %d' % (i + 1), 'IT.postdec.old.%d' % i, i + 1)
+        sc.int_eq('it-- moves back to %d' % i, 'IT.postdec.new.%d' % i, i)
+        sc.int_eq('++it', 'IT.preinc.%d' % i, i + 1)
+        sc.int_eq('--it', 'IT.predec.%d' % i, i)
+        sc.int_eq('(begin+%d)->index()' % i, 'IT.arrow.%d' % i, i)
+    sc.int_eq('end - begin == segment count', 'IT.enddist', N)
+    sc.int_eq('iterators of different trajectories compare unequal', 'IT.otherparent.eq', 0)
+    sc.int_eq('iterators of different trajectories compare unequal (!=)', 'IT.otherparent.ne', 1)
+    return [sc]
 
 
 def base_script(ty, N, nc, seed):
@@ -113,6 +145,13 @@ def run_task(t):
     if k == 0:
         s.add('pp.evaldef P t plaindef')
     s.add('pp.batch P', k, 'bat', 1, 't')
+    if k <= 6:
+        s.add('pp.batchE P', k, 'batE', 1, 't')
+    if k == 1:
+        s.add('pp.deriv1 Q1 P')
+        s.add('pp.eval Q1 t 0 dq1')
+    for i in range(N if N <= 4 else 2):
+        s.add('pp.segmeta P', i, 'sm%d' % i)
     s.add('pp.evalh P t null', k, 'hnull')
     for hi, h in enumerate(hints):
         s.add('int H%d %d' % (hi, h))
@@ -168,7 +207,9 @@ def run_task(t):
             # (2) routes identical (bit-identical: UF / node identity)
             routes = ['bat.0', 'hnull'] + ['h%d' % hi for hi in range(len(hints))] + ['dq'] + ['seg_' + h for h in ('idx', 'at', 'iter', 'arrow', 'back')]
             if k <= 6:
-                routes += ['plainE', 'hE', 'seg_E']
+                routes += ['plainE', 'hE', 'seg_E', 'batE.0']
+            if k == 1:
+                routes.append('dq1')
             if k == 0:
                 routes.append('plaindef')
             for rt in routes:
@@ -180,6 +221,17 @@ def run_task(t):
             else:
                 sc.int_eq('hint %d untouched when k exceeds the degree' % h, 'h%d.hint' % hi, h)
         sc.int_eq('batch size', 'bat.n', 1)
+        if len(out) == 0:
+            # per-segment metadata (same on every path): start / end / duration / coefficient block / index
+            for si in range(N if N <= 4 else 2):
+                sc.uf_node_eq('segment %d startTime is breakpoint %d' % (si, si), 'sm%d.start' % si, g2.varid['b%d' % si])
+                sc.uf_node_eq('segment %d endTime is breakpoint %d' % (si, si + 1), 'sm%d.end' % si, g2.varid['b%d' % (si + 1)])
+                sc.real_eq('segment %d duration == b_%d - b_%d' % (si, si + 1, si), 'sm%d.dur' % si, E.add(E.node(g2.varid['b%d' % (si + 1)]), E.node(g2.varid['b%d' % si]), -1))
+                sc.int_eq('segment %d index' % si, 'sm%d.index' % si, si)
+                sc.int_eq('segment %d coefficient block rows' % si, 'sm%d.crows' % si, nc)
+                for m in range(nc):
+                    for d in range(dim):
+                        sc.uf_node_eq('segment %d getCoeffs()[%d,%d] is the input coefficient' % (si, m, d), 'sm%d.c.%d.%d' % (si, m, d), g2.varid['c%d_%d' % (si * nc + m, d)])
         sc.int_eq('derivative trajectory initialised', 'qm.init', 1)
         sc.int_eq('derivative trajectory segments', 'qm.nseg', N)
         out.append(sc)
